@@ -30,14 +30,20 @@ def main():
         print(f'CHECKER-FAULT property={prop} :: driver crashed')
         sys.exit(3)
     if a.update_ledger:
+        # read-modify-write under a lock, replaced atomically: several checks may update their own entry at once
+        import fcntl
         path = os.path.join(ROOT, 'ledger.json')
-        led = {}
-        if os.path.exists(path):
-            with open(path) as f:
-                led = json.load(f)
-        led[f'{prop}:{a.tier}'] = driver.ledger_names(names)
-        with open(path, 'w') as f:
-            json.dump(led, f, indent=0, sort_keys=True)
+        with open(path + '.lock', 'w') as lk:
+            fcntl.flock(lk, fcntl.LOCK_EX)
+            led = {}
+            if os.path.exists(path):
+                with open(path) as f:
+                    led = json.load(f)
+            led[f'{prop}:{a.tier}'] = driver.ledger_names(names)
+            tmp = path + f'.tmp{os.getpid()}'
+            with open(tmp, 'w') as f:
+                json.dump(led, f, indent=0, sort_keys=True)
+            os.replace(tmp, path)
         print(f'ledger updated: {len(driver.ledger_names(names))} obligation names for {prop}:{a.tier}')
     sys.exit(code)
 
